@@ -1752,7 +1752,7 @@ func (h *harness) compareProofs(r *replica) {
 // ---------------------------------------------------------------------------
 
 func TestStoreReplication(t *testing.T) {
-	vk.Check(t, 320, 6400, func(rt *rapid.T, c *vk.Case) {
+	vk.Check(t, 320, 4800, func(rt *rapid.T, c *vk.Case) {
 		p := genPrimary(rt, c)
 		defer p.close()
 		h := &harness{rt: rt, c: c, p: p}
